@@ -175,7 +175,7 @@ impl Prop for EquivProp {
         "Every ordered sequence of the stated length over union/insert operations plus four rewrite-iteration operations (one of them with patterns that repeat a slot) is executed six times, each in a fresh thread, with all slot names of all inputs replaced through an injective map: numeric, numeric with reversed order, textual names that sort opposite to the numeric originals, names of the library's own fresh form $f<n> (far above the counter, and exactly the next unissued index), and numeric shifted by 1000. The observation mapped back through the renaming must be identical to the numeric run: every eq answer over tracked (sub)terms x relative namings, slots of every returned invocation, per-term slot set and symmetry count after canonicalisation, the whole ProgressMeasure, node count, class profile, min-size analysis datum, and best cost under AstSize and a per-operator weighted cost. Non-trivial = sequence whose numeric run did not panic.".into()
     }
     fn assumptions(&self) -> Vec<String> {
-        vec!["a run that panics under one naming but not another is reported as a violation of C11; a run that panics under all namings alike is counted as aborted".into()]
+        vec!["a run that panics under one naming but not another is reported as a violation of C11; a run that panics under all namings alike is reported as a no-answer failure".into()]
     }
     fn describe(&self, tier: Tier, _cfg: &str, seg: usize, idx: u64) -> Value {
         let (a, d) = spaces(tier)[seg];
